@@ -13,6 +13,17 @@ fn post_positions() -> Vec<Pos> {
 
 pub fn judge(case: &FaultCase, run: &FaultRun) -> Outcome {
 	let d = describe(case);
+	if case.faults.is_empty() {
+		// fault-free control (e.g. with a Retry-After header): must simply succeed within the poll bound
+		if run.end != WaitEnd::Reached || run.attempts.is_empty() {
+			return Outcome::fail("C08:no-attempt-result", format!("attempt did not end ({:?}); {d}", run.end));
+		}
+		let a = &run.attempts[0];
+		if a.post.arg("is_success") != Some("true") {
+			return Outcome::fail("C08:fault-free-failed", format!("fault-free issuance failed: {:?}; {d}\n{}", a.post.arg("status"), run.stderr_tail));
+		}
+		return Outcome::pass(false, vec!["fault-free".into()]);
+	}
 	let f = &case.faults[0];
 	if run.end != WaitEnd::Reached || run.attempts.is_empty() {
 		return Outcome::fail("C08:no-attempt-result", format!("attempt did not end ({:?}); {d}\n{}", run.end, run.stderr_tail));
@@ -22,6 +33,9 @@ pub fn judge(case: &FaultCase, run: &FaultRun) -> Outcome {
 	let txs: Vec<&crate::mockca::ReqLog> = a.reqs.iter().map(|i| &run.snap.log[*i]).filter(|l| l.pos == f.pos).collect();
 	let k = f.repeat;
 	let mut classes = vec![format!("pos={}", f.pos.name()), format!("k={k}")];
+	if case.retry_after.is_some() {
+		classes.push("retry-after".into());
+	}
 	let mut nontrivial = k >= 2;
 	match &f.action {
 		Action::Acme(t) if f.pos.is_post() && RECOVERABLE.contains(&t.as_str()) => {
@@ -122,6 +136,7 @@ pub fn cases(tier: Tier) -> Vec<FaultCase> {
 		nonce_on_get: false,
 		hook_faults: vec![],
 		file_hooks: false,
+		retry_after: None,
 	};
 	let full_k_positions = [Pos::NewOrder, Pos::Chall(1), Pos::Finalize];
 	for pos in post_positions() {
@@ -152,6 +167,18 @@ pub fn cases(tier: Tier) -> Vec<FaultCase> {
 	out.push(mk(&Pos::OrderReady, Action::Status("pending".into()), 40));
 	out.push(mk(&Pos::OrderValid, Action::Status("processing".into()), 40));
 	out.push(mk(&Pos::OrderReady, Action::Status("processing".into()), 40));
+	// the same with a Retry-After header on the polled objects (a CA may send one; the bound stays)
+	for ra in ["0", "1", "120", "Wed, 21 Oct 2099 07:28:00 GMT"] {
+		for (pos, st) in [(Pos::AuthzPoll(0), "pending"), (Pos::OrderReady, "pending"), (Pos::OrderValid, "processing")] {
+			let mut c = mk(&pos, Action::Status(st.into()), 40);
+			c.retry_after = Some(ra.to_string());
+			out.push(c);
+		}
+	}
+	let mut ok = mk(&Pos::Nonce, Action::Empty(503), 0);
+	ok.faults.clear();
+	ok.retry_after = Some("0".into());
+	out.push(ok);
 	out
 }
 
